@@ -341,6 +341,12 @@ func c13Setup(c c13Case) *c13Run {
 	}
 	c13MustAppend(s2, "s2-b")
 	c13MustAppend(s2, "s2-c")
+	if c.Deny {
+		// more refused entries than the log has verification slots (Concurrency defaults to 16)
+		for i := 0; i < 18; i++ {
+			c13MustAppend(s2, fmt.Sprintf("s2-x%d", i))
+		}
+	}
 	r.sources = []*ipfslog.IPFSLog{s1, s2}
 	return r
 }
